@@ -130,6 +130,7 @@ class Gen:
         self.s, self.r, self.profile = sess, rng, profile
         self.ptypes = {k: [] for k in KINDS}
         self.tok = 10
+        self.sgc = os.environ.get("KGEN_STATUSGC", "0") == "1"
 
     # ---------------------------------------------------------------- fragments
     def st(self): return self.s.state
@@ -327,6 +328,35 @@ class Gen:
             a, b = s.E[r.pick(s.live_e())]
         self.do("@Swap%s %d %d" % (k, a, b))
 
+    def readd(self):
+        """re-create an entity on the sub-entities of a deferred-deleted one (the stale slot and the new live entity then coexist)"""
+        s = self.st(); r = self.r
+        dead_c = [c for c in range(len(s.C)) if s.cdel[c] and s.C[c] and all(not s.fdel[h // 2] for h in s.C[c])]
+        used = s.used_halffaces()
+        dead_c = [c for c in dead_c if not any(h in used for h in s.C[c])]
+        dead_f = [f for f in range(len(s.F)) if s.fdel[f] and s.F[f] and all(not s.edel[h // 2] for h in s.F[f])]
+        dead_e = [e for e in range(len(s.E)) if s.edel[e] and not s.vdel[s.E[e][0]] and not s.vdel[s.E[e][1]]]
+        k = r.below(3)
+        if dead_c and (k == 0 or not (dead_f or dead_e)):
+            c = r.pick(dead_c); self.do("@AddC %d %s" % (r.below(2), " ".join(map(str, s.C[c]))))
+            if r.chance(1, 2):   # one more cell so that the re-added one is not the last slot
+                base = self.st().nv; self.add_vertices(4); self.add_tet(base, base + 1, base + 2, base + 3)
+        elif dead_f and (k == 1 or not dead_e):
+            f = r.pick(dead_f); self.do("@AddF %d %s" % (r.below(2), " ".join(map(str, s.F[f]))))
+        elif dead_e:
+            e = r.pick(dead_e); self.do("@AddE %d %d %d" % (s.E[e][0], s.E[e][1], r.below(2)))
+
+    def status_gc(self):
+        """StatusAttrib::garbage_collection with status marks, tracked handles and the manifoldness option"""
+        s = self.st(); r = self.r
+        def some(l, k):
+            l = list(l); return sorted(set(r.pick(l) for _ in range(r.below(k + 1)))) if l else []
+        nhe, nhf = 2 * len(s.E), 2 * len(s.F)
+        parts = ["V"] + some(range(s.nv), 2) + ["E"] + some(range(len(s.E)), 2) + ["F"] + some(range(len(s.F)), 2) + ["C"] + some(range(len(s.C)), 2)
+        if r.chance(3, 4):
+            parts += ["TV"] + some(range(s.nv), 4) + ["THE"] + some(range(nhe), 4) + ["THF"] + some(range(nhf), 4) + ["TC"] + some(range(len(s.C)), 3)
+        self.do("@StatusGC %d %s" % (r.below(2), " ".join(map(str, parts))))
+
     def toggle(self):
         r = self.r
         self.do("%s %d" % (r.pick(["EnVBU", "EnEBU", "EnFBU"]), r.below(2)))
@@ -423,8 +453,10 @@ class Gen:
             for _ in range(nops):
                 c = r.below(20)
                 if c < 7: self.delete_some()
-                elif c < 10: self.swap_some()
-                elif c < 12: self.do("GC")
+                elif c < 9: self.swap_some()
+                elif c < 10: self.readd()
+                elif c < 11: self.do("GC")
+                elif c < 12: self.status_gc() if self.sgc else self.do("GC")
                 elif c < 14: self.toggle()
                 elif c == 14: self.build()
                 elif c == 15: self.do("EnDef %d" % r.below(2))
@@ -458,6 +490,22 @@ class Gen:
                 elif c == 7: self.delete_some()
                 elif c == 8: self.set_something()
                 else: self.do("Clear %d" % r.below(2))
+        elif p == "gc":
+            # pending deletions, then collect_garbage / leaving deferred mode / StatusAttrib::garbage_collection (C04)
+            self.mode(deferred=1)
+            self.create_props(2)
+            self.build(); self.fill_props()
+            for _ in range(nops):
+                c = r.below(20)
+                if c < 6: self.delete_some("VEEFFC")
+                elif c < 7: self.readd()
+                elif c < 9: self.do("GC")
+                elif c < 14: self.status_gc()
+                elif c == 14: self.do("EnDef 0"); self.do("EnDef 1")
+                elif c == 15: self.swap_some()
+                elif c == 16: self.toggle()
+                elif c == 17: self.do("EnFast %d" % r.below(2))
+                else: self.build(); self.fill_props()
         elif p == "toggles":
             # incidence kinds switched off and on again while deletions are pending / after renumbering (C12, C01)
             self.mode(deferred=1 if r.chance(2, 3) else 0)
@@ -471,7 +519,8 @@ class Gen:
                     for _ in range(r.below(3)): self.delete_some("EFCV" if r.chance(3, 4) else "V")
                     if r.chance(1, 3): self.swap_some()
                     self.do("%s 1" % k)
-                elif c < 13: self.delete_some("EEFFCV")
+                elif c < 12: self.delete_some("EEFFCV")
+                elif c < 13: self.readd()
                 elif c < 15: self.swap_some()
                 elif c == 15: self.do("GC")
                 elif c == 16: self.build()
